@@ -56,7 +56,7 @@ def shape_sig(d):
     if d[Kw("what")] == "queued":
         return "queued-then-read:%s:%s:%s" % (d[Kw("kind")], d[Kw("mode")], cls(d[Kw("size")]))
     if d[Kw("what")] == "duplex":
-        return "duplex:%s" % cls(d[Kw("size")])
+        return "duplex:%s%s" % (cls(d[Kw("size")]), ":gc" if d.get(Kw("gc")) else "")
     if d[Kw("what")] == "shared":
         return "shared-redirect:%s" % d[Kw("share")]
     if d[Kw("what")] == "close-both":
@@ -147,9 +147,9 @@ def judge_stream(d, r):
         if bad is not None:
             probs.append(("order-violated", "writer %d: at position %d received byte code %d" % tuple(bad)))
         if rres[0] == "eof":
-            if rmode == "read" and nchunks and (mn < 1 or mx > rn):
+            if rmode in ("read", "nread") and nchunks and (mn < 1 or mx > rn):
                 probs.append(("read-size", "ev/read %d returned chunk sizes in [%d,%d]" % (rn, mn, mx)))
-            if rmode == "chunk" and nchunks:
+            if rmode in ("chunk", "nchunk") and nchunks:
                 if ndiff > 1 or (ndiff == 1 and last == rn) or mx > rn:
                     probs.append(("chunk-size", "ev/chunk %d returned %d chunks not of the requested size (last=%r max=%d)" % (
                         rn, ndiff, last, mx)))
@@ -266,6 +266,9 @@ def main():
             for size in sizes:
                 readers = [("read", 7), ("read", 4096), ("read", 1000000), ("chunk", 7), ("chunk", 4096),
                            ("chunk", 100000), ("all", None)]
+                if kind == "unix":
+                    # the net/ variants are separate C functions over the same machinery
+                    readers += [("nread", 4096), ("nchunk", 7), ("nchunk", 4096), ("nchunk", 100000)]
                 if size <= 4097:
                     readers += [("read", 1), ("chunk", 1)]
                 if size > 70000:
@@ -308,9 +311,12 @@ def main():
               for k in ("pipe", "unix") for m in ("chunk", "read") for n in (1, 4096, 60000, 65536, 100000, 150000, 200000)
               if not (k == "pipe" and n > 65536)]
         run_items(chk, "queued-then-read", qd, chunk=4)
-        dx = [{Kw("what"): Kw("duplex"), Kw("scratch"): scratch, Kw("size"): n, Kw("eintr"): None}
-              for n in (1, 4096, 65536, 200000, 1 << 20) + (() if quick else (4 << 20,))]
-        run_items(chk, "duplex", dx, chunk=2)
+        dx = [{Kw("what"): Kw("duplex"), Kw("scratch"): scratch, Kw("size"): n, Kw("gc"): g, Kw("eintr"): None}
+              for n in (1, 4096, 65536, 200000, 1 << 20) + (() if quick else (4 << 20,)) for g in (False, True)]
+        run_items(chk, "duplex", [d for d in dx if not d[Kw("gc")]], chunk=2)
+        # with a collection while reader and writer are parked: under AddressSanitizer, so that a fiber freed while the
+        # stream still points at it is seen at once
+        run_items(chk, "duplex-gc", [d for d in dx if d[Kw("gc")]], variant="asan", chunk=1)
         cb = [{Kw("what"): Kw("close-both"), Kw("scratch"): scratch, Kw("size"): 4 << 20, Kw("reader"): rd, Kw("writer"): wr, Kw("eintr"): None}
               for rd, wr in ((True, False), (False, True), (True, True))]
         run_items(chk, "close-with-pending", cb, chunk=1)
